@@ -17,6 +17,7 @@ type ifaceModelFn func(st *State, fr *Frame, call *ssa.CallCommon, recv Val, arg
 
 var models map[string]modelFn
 var ifaceModels map[string]ifaceModelFn
+var callOutExtraWrites map[string][]string
 var callOutHooks map[string]func(st *State, fr *Frame, args []Val, res []Val, pos token.Pos)
 
 const (
@@ -69,6 +70,7 @@ func init() {
 			a2 := st.arr("G|rand", "(Array Int Real)")
 			st.setArr("G|rand", "(Array Int Real)", store(a2, n, r))
 			st.setArr("G|cnt|rand", "Int", fmt.Sprintf("(+ %s 1)", n))
+			st.written["G|rand"] = true
 			return rv(Val{C: []string{r}})
 		},
 		"(*sync.Mutex).Lock": func(st *State, fr *Frame, fn *ssa.Function, a []Val, pos token.Pos) (*Val, bool) {
@@ -168,7 +170,14 @@ func init() {
 			return rv(Val{C: []string{st.expAtOf(nil, recv.C[0], recv.C[1])}})
 		},
 	}
+	callOutExtraWrites = map[string][]string{"Deleter.Delete": {"G|delok"}}
 	callOutHooks = map[string]func(st *State, fr *Frame, args []Val, res []Val, pos token.Pos){
+		"Deleter.Delete": func(st *State, fr *Frame, args []Val, res []Val, pos token.Pos) {
+			// ghost: number of Delete call-outs that reported success
+			st.e.ghostInit["G|delok"] = "(and (>= $ 0) (< $ 4611686018427387904))"
+			n := st.arr("G|delok", "Int")
+			st.setArr("G|delok", "Int", fmt.Sprintf("(+ %s %s)", n, ite(eq(res[0].C[0], "0"), "1", "0")))
+		},
 		"StatsTracker.Add": func(st *State, fr *Frame, args []Val, res []Val, pos token.Pos) {
 			// args: recv, ctx, name, increment, labels
 			name, inc := args[2].C[0], args[3].C[0]
@@ -211,6 +220,7 @@ func (st *State) clockRead() string {
 	c := st.arr("G|clk", "(Array Int Int)")
 	st.setArr("G|clk", "(Array Int Int)", store(c, n, t))
 	st.setArr("G|nclk", "Int", fmt.Sprintf("(+ %s 1)", n))
+	st.written["G|clock"] = true
 	e.assumeUsed("time.Now is a non-decreasing ghost clock with 0 <= now < 2^62 ns (years 1970..2116); time.Time modelled as integer ns")
 	return t
 }
